@@ -36,7 +36,9 @@ FILES = {
     "e.c": '#include "once.h"\n#ifdef X\nint ex;\n#endif\n#define STR(x) #x\n#define XSTR(x) STR(x)\n#include XSTR(P)\nint e;\n#ifdef ONCE_SEEN\nint eseen;\n#else\nint enot;\n#endif\n',
     "f.cu": "int f;\n#if defined(__CUDA_ARCH__) && __CUDA_ARCH__ >= 800\nint amp;\n#endif\n#ifdef __CUDACC__\nint cc;\n#endif\n#ifdef X\nint fx;\n#endif\n",
     "never.c": "int never;\n",
-    "lvl.h": "#define LEVEL BASE\n#if LEVEL > 1\nint hi;\n#else\nint lo;\n#endif\n#if defined(BASE) && BASE == 1\nint one;\n#endif\n",
+    # + a variadic macro whose #define directive (one shared tree node) is evaluated by every command that includes the header
+    "lvl.h": "#define LEVEL BASE\n#if LEVEL > 1\nint hi;\n#else\nint lo;\n#endif\n#if defined(BASE) && BASE == 1\nint one;\n#endif\n"
+             "#define SEL(a, ...) SEL2(__VA_ARGS__)\n#define SEL2(b, c) c\n#if SEL(0, 0, 1)\nint sel;\n#else\nint nosel;\n#endif\n",
     "g.c": '#include "lvl.h"\nint g;\n',
     "g2.c": '#include "lvl.h"\nint g2;\n',
     # the same file compiled with two -I lists that resolve its quoted include differently
